@@ -20,10 +20,12 @@ TInit == /\ TrackInit
          /\ K = 1 /\ inp = <<>> /\ f = ZeroMer(1) /\ r = ZeroMer(1) /\ len = 0 /\ out = <<>>
 
 \* registers and counters logged after a call must be the model's
-StateMatches == /\ Ev.pos = Len(inp)'
-                /\ Ev.len = len'
-                /\ HighZero(Ev.f, K) /\ LowDigits(Ev.f, K) = f'
-                /\ HighZero(Ev.r, K) /\ LowDigits(Ev.r, K) = r'
+\* (the Python binding exposes no internal state: every field is optional)
+Has(fld) == fld \in DOMAIN Ev
+StateMatches == /\ Has("pos") => Ev.pos = Len(inp)'
+                /\ Has("len") => Ev.len = len'
+                /\ Has("f") => HighZero(Ev.f, K) /\ LowDigits(Ev.f, K) = f'
+                /\ Has("r") => HighZero(Ev.r, K) /\ LowDigits(Ev.r, K) = r'
 
 TKInit == /\ Is("kinit") /\ phase = "idle"
           /\ Ev.k \in KSet
@@ -38,6 +40,7 @@ TSilent == /\ phase = "run" /\ Len(inp) < Len(Bytes)
 TEmit == /\ Is("kemit") /\ phase = "run" /\ Len(inp) < Len(Bytes)
          /\ Step(NextClass)
          /\ Len(out') = Len(out) + 1
+         /\ Has("f") /\ Has("r")
          /\ StateMatches
          /\ Consume /\ UNCHANGED <<phase, base>>
 
@@ -46,10 +49,17 @@ TEnd == /\ Is("kend") /\ phase = "run" /\ Len(inp) = Len(Bytes)
         /\ StateMatches
         /\ phase' = "idle" /\ Consume /\ UNCHANGED base
 
+\* to_acgt(x) of the Python iterator object (between runs): the k letters of the code
+LetterByte == <<65, 67, 71, 84>>
+TAcgt == /\ Is("kacgt") /\ phase = "idle"
+         /\ HighZero(Ev.x, Ev.k)
+         /\ Ev.txt = [i \in 1..Ev.k |-> LetterByte[LowDigits(Ev.x, Ev.k)[i] + 1]]
+         /\ Consume /\ UNCHANGED <<vars, phase, base>>
+
 \* the harness closes every trace file with an eof event: a run cut short is rejected
 TEof == /\ Is("eof") /\ phase = "idle" /\ Consume /\ UNCHANGED <<vars, phase, base>>
 
-TNext == TKInit \/ TSilent \/ TEmit \/ TEnd \/ TEof
+TNext == TKInit \/ TSilent \/ TEmit \/ TEnd \/ TAcgt \/ TEof
 TSpec == TInit /\ [][TNext]_tvars
 
 \* the full declarative characterisation once per run (at its end); cheap ones always
